@@ -49,10 +49,13 @@ def _spec(decoder, cfg):
             if src['len'] > len(src['bytes']):
                 return None
         spec['opens'] = m.get('#opens', [])
+        for k in ('#aead_vec', '#xof', '#ecb'):
+            if k in m:
+                spec[k[1:]] = m[k]
         for k, v in m.items():
             if k.startswith('#clock_'):
                 spec['clock'] = v
-            elif k not in ('src', '#opens') and not isinstance(v, dict):
+            elif k not in ('src', '#opens', '#aead_vec', '#xof', '#ecb') and not isinstance(v, (dict, list)):
                 spec.setdefault('vars', {})[k] = v
         return spec
     return f
